@@ -15,7 +15,7 @@ trap 'git -C /repo worktree remove --force "$wt" >/dev/null 2>&1; rm -rf "$wt" "
 tst=$(ls "$src"/*_test.go 2>/dev/null | head -1)
 [ -z "$tst" ] && { echo "RESULT $name no-test"; exit 2; }
 pk=$(sed -n 's/^package \([a-z_]*\).*/\1/p' "$tst" | head -1)
-case "$pk" in terminfo|terminfo_test) pkgdir=terminfo;; views|views_test) pkgdir=views;; encoding) pkgdir=encoding;; *) pkgdir=.;; esac
+case "$pk" in xterm) pkgdir=terminfo/x/xterm;; terminfo|terminfo_test) pkgdir=terminfo;; views|views_test) pkgdir=views;; encoding) pkgdir=encoding;; *) pkgdir=.;; esac
 wasm=0; grep -q "js && wasm\|+build js" "$tst" && wasm=1
 run() { if [ $wasm -eq 1 ]; then ( cd "$wt" && GOOS=js GOARCH=wasm go test -vet=off -count=1 -exec="$(go env GOROOT)/misc/wasm/go_js_wasm_exec" "./$pkgdir/" ); else ( cd "$wt" && go test -vet=off -count=1 "./$pkgdir/" ); fi; }
 cp "$tst" "$wt/$pkgdir/"
